@@ -377,7 +377,7 @@ func (mc *MemoryChannel) copyAofFrom(seg *memorySegment, offset int64, pipew pip
 			continue
 		}
 		if errors.Is(err, io.EOF) {
-			next := mc.nextAofSegment(current.left)
+			next := mc.nextAofSegment(current)
 			if next == nil {
 				return nil
 			}
@@ -390,11 +390,14 @@ func (mc *MemoryChannel) copyAofFrom(seg *memorySegment, offset int64, pipew pip
 	}
 }
 
-func (mc *MemoryChannel) nextAofSegment(left int64) *memorySegment {
+// nextAofSegment returns the segment that follows seg in the current log. seg is matched by
+// identity, not by its left offset : after a reset the log may hold another segment with the
+// same left offset, and a reader of the old data must end there instead of continuing into it
+func (mc *MemoryChannel) nextAofSegment(seg *memorySegment) *memorySegment {
 	mc.mux.RLock()
 	defer mc.mux.RUnlock()
 	for i := 0; i < len(mc.aofSegs)-1; i++ {
-		if mc.aofSegs[i].left == left {
+		if mc.aofSegs[i] == seg {
 			return mc.aofSegs[i+1]
 		}
 	}
